@@ -562,7 +562,7 @@ func (fe *FnEnc) useContract(ct *Contract, args []Val, rt types.Type, pos token.
 			fe.mem.ghost[k] = n
 		}
 	}
-	for k := range s.funSeen {
+	for _, k := range sortedKeys(s.funSeen) {
 		if strings.HasPrefix(k, "G0_next_") {
 			gk := strings.TrimPrefix(k, "G0_")
 			if _, ok := fe.mem.ghost[gk]; !ok {
@@ -632,7 +632,7 @@ func (fe *FnEnc) havocLvalue(ev *Eval, cl Clause) {
 								for i := 0; i < st.NumFields(); i++ {
 									if st.Field(i).Name() == sel.F {
 										k := s.heapKeyField(sn, st, i)
-										fe.mem.heaps[k] = s.fresh("hh", s.heapSort[k])
+										fe.havocKeys(map[string]bool{k: true})
 										fe.recordMod([]string{k})
 									}
 								}
